@@ -110,7 +110,7 @@ def theorem_names(relpath):
     return names
 
 
-def lean_audit(prop_files, extra_source_dirs=("RadicaleModel", "RadicaleProofs", "Props", "Driver")):
+def lean_audit(prop_files, extra_source_dirs=("RadicaleModel", "RadicaleProofs", "Props", "Driver", "Generated")):
     """Forbidden-token scan over all Lean sources + `#print axioms` of every
     property theorem.  Returns dict(ok, theorems, axioms, problems)."""
     problems = []
@@ -291,9 +291,13 @@ class Ctx:
     def prepare_lean(self, pre_build=None):
         if pre_build:
             pre_build()
-        self.build_ok, self.build_log = lean_build()
+        # only this property's theorem files (and what they import) + the model driver: a proof obligation of
+        # another property that no longer checks must not raise an alarm here
+        targets = ["driver"] + [pf[:-5].replace("/", ".") for pf in self.prop_files]
+        self.build_ok, self.build_log = lean_build(targets)
         if not self.build_ok:
             self.broke("lake build", self.build_log)
+            lean_build(["driver"])          # the model driver is still needed for the search for a failing input
         if os.path.exists(DRIVER_BIN):
             try:
                 self.driver = Driver()
